@@ -14,10 +14,10 @@ package main
 
 import (
 	"bytes"
-	"errors"
 	"crypto/sha1"
 	"encoding/binary"
 	"encoding/hex"
+	"errors"
 	"fmt"
 	"net"
 	"reflect"
